@@ -103,6 +103,10 @@ def parse_module(text):
     funcs, declares, globs = {}, set(), {}
     lines = text.split('\n')
     i = 0
+    TYPEDEFS.clear()
+    for ln in lines:
+        m = re.match(r'(%"[^"]+"|%[-\w.$]+) = type (.*)$', ln)
+        if m: TYPEDEFS[m.group(1)] = m.group(2).strip()
     while i < len(lines):
         ln = lines[i]
         if ln.startswith('@'):
@@ -165,7 +169,10 @@ def parse_type_prefix(s):
                 if depth == 0:
                     return s[:k+1], s[k+1:].strip()
     m = re.match(r'(i\d+|ptr|void|label|metadata|float|double)\b', s)
-    if not m: raise ValueError('type? ' + s)
+    if not m:
+        m = re.match(r'(%"[^"]+"|%[-\w.$]+)', s)
+        if m and m.group(1) in TYPEDEFS: return m.group(1), s[m.end():].strip()
+        raise ValueError('type? ' + s)
     return m.group(1), s[m.end():].strip()
 
 def type_bits(t):
@@ -175,23 +182,52 @@ def type_bits(t):
     if m: return int(m.group(1))
     raise ValueError('bits of ' + t)
 
-def type_size(t):
+TYPEDEFS = {}
+
+def type_layout(t):
+    """(size, align) in bytes"""
     t = t.strip()
-    if t == 'ptr': return 8
+    if t in TYPEDEFS: return type_layout(TYPEDEFS[t])
+    if t == 'ptr': return 8, 8
     m = re.match(r'i(\d+)$', t)
-    if m: return (int(m.group(1)) + 7) // 8
+    if m:
+        n = (int(m.group(1)) + 7) // 8
+        a = 1
+        while a < n and a < 16: a *= 2
+        return (n + a - 1) // a * a if n > 8 else n, min(a, 16) if n > 8 else a
     m = re.match(r'\[(\d+) x (.*)\]$', t)
-    if m: return int(m.group(1)) * type_size(m.group(2))
+    if m:
+        sz, al = type_layout(m.group(2)); return int(m.group(1)) * sz, al
+    if t.startswith('<{') and t.endswith('}>'):
+        return sum(type_layout(x)[0] for x in split_top(t[2:-2])), 1
     if t.startswith('{') and t.endswith('}'):
-        # non-packed struct of equally aligned scalars only (what rustc emits for (T, bool) pairs is
-        # never stored as an aggregate in optimised IR); be conservative
-        raise ValueError('size of struct ' + t)
-    raise ValueError('size of ' + t)
+        off, al = 0, 1
+        for x in split_top(t[1:-1]):
+            sz, a = type_layout(x); off = (off + a - 1) // a * a + sz; al = max(al, a)
+        return (off + al - 1) // al * al, al
+    raise ValueError('layout of ' + t)
+
+def struct_field_offset(t, idx):
+    t = t.strip()
+    if t in TYPEDEFS: t = TYPEDEFS[t]
+    packed = t.startswith('<{')
+    fields = split_top(t[2:-2] if packed else t[1:-1])
+    off = 0
+    for k, x in enumerate(fields):
+        sz, a = type_layout(x)
+        if not packed: off = (off + a - 1) // a * a
+        if k == idx: return off, x
+        off += sz
+    raise ValueError('field %d of %s' % (idx, t))
+
+def type_size(t):
+    return type_layout(t)[0]
 
 ATTR_WORDS = {'noundef','nonnull','zeroext','signext','noalias','readonly','writeonly','nocapture','immarg','returned','inreg','nofree'}
 def strip_attrs(s):
     s = re.sub(r'range\((?:[^()]|\([^()]*\))*\)', '', s)
     s = re.sub(r'(captures|dereferenceable|dereferenceable_or_null|align)\s*\([^)]*\)', '', s)
+    s = re.sub(r'(sret|byval|byref|preallocated|inalloca|elementtype)\s*\((?:[^()]|\([^()]*\))*\)', '', s)
     s = re.sub(r'\balign \d+', '', s)
     return ' '.join(w for w in s.split() if w not in ATTR_WORDS)
 
@@ -608,9 +644,16 @@ class Executor:
                 iv = simp(z3.SignExt(64 - w, iv)) if w < 64 else iv
                 if k == 0: sz = type_size(cur)
                 else:
-                    mm = re.match(r'\[(\d+) x (.*)\]$', cur)
-                    if not mm: raise Outcome('unsupported', 'gep into ' + cur)
-                    cur = mm.group(2); sz = type_size(cur)
+                    rc = TYPEDEFS.get(cur.strip(), cur.strip())
+                    mm = re.match(r'\[(\d+) x (.*)\]$', rc)
+                    if mm:
+                        cur = mm.group(2); sz = type_size(cur)
+                    elif rc.startswith('{') or rc.startswith('<{'):
+                        if not z3.is_bv_value(iv): raise Outcome('unsupported', 'symbolic struct index')
+                        fo, cur = struct_field_offset(rc, iv.as_long())
+                        off = simp(off + bv(fo, 64)); continue
+                    else:
+                        raise Outcome('unsupported', 'gep into ' + cur)
                 off = simp(off + simp(iv * bv(sz, 64)))
             env[dest] = Ptr(base.obj, off); return
         if op == 'extractvalue':
@@ -821,13 +864,14 @@ def uniqueness_hint(a, b, q, r, sums=()):
             if d.eq(b): break
     return z3.And(hints) if hints else None
 
-def div_lemma_form(assertions):
+def div_lemma_form(assertions, hints=True):
     """replace every udiv/urem by fresh q/r constrained by the division lemma (for bit-blasters)"""
     assertions = list(assertions)
     divs = collect_divs(assertions)
     if not divs: return assertions
     shifts = collect_lshr_consts(assertions)
     sums = collect_sums(assertions)
+    products = collect_products(assertions)
     pairs = {}   # (a id, b id) -> (q, r)
     lemmas = []
     done = []    # substitution list applied progressively (inner first)
@@ -841,9 +885,9 @@ def div_lemma_form(assertions):
             wa, wb, wq, wr = (z3.ZeroExt(w, x) for x in (a, b, q, r))
             lemmas.append(z3.Implies(b != 0, z3.And(wq * wb + wr == wa, z3.ULT(r, b))))
             lemmas.append(z3.Implies(b == 0, z3.And(q == bv(-1, w), r == a)))
-            hint = uniqueness_hint(a, b, q, r, [] if done else sums)
+            hint = uniqueness_hint(a, b, q, r, [] if done else sums) if hints else None
             if hint is not None: lemmas.append(hint)
-            if not done: lemmas += bound_hints(a, b, q, shifts)
+            if not done and hints: lemmas += bound_hints(a, b, q, shifts) + monotonic_hints(a, b, q, products)
             pairs[key] = (q, r)
         q, r = pairs[key]
         isdiv = t.decl().kind() in (z3.Z3_OP_BUDIV, z3.Z3_OP_BUDIV_I)
@@ -874,11 +918,49 @@ def bound_hints(a, b, q, shifts):
                 hs.append(z3.Implies(z3.ULT(z3.LShR(a, bv(k, w)), b), z3.ULT(q, bv(1 << k, w))))
     return hs
 
+def collect_products(exprs):
+    """all two-argument bvmul terms x*y with non-constant arguments: list of (term, x, y)"""
+    seen, out = set(), []
+    def walk(e):
+        if e.get_id() in seen: return
+        seen.add(e.get_id())
+        for c in e.children(): walk(c)
+        m = _mul_args(e) if z3.is_app(e) and z3.is_bv(e) else None
+        if m and not (z3.is_bv_value(m[0]) or z3.is_bv_value(m[1])): out.append((e, m[0], m[1]))
+    for e in exprs: walk(e)
+    return out
+
+def monotonic_hints(a, b, q, products):
+    """Sound lemma instances (monotonicity of Euclidean division) for products b*x occurring in the query
+    (b syntactically the divisor, b*x not wrapping):
+        b*x <=u a  implies  x <=u a/b          a <u b*x  implies  a/b <u x
+        a <u b*x1 + b*x2 (not wrapping)  implies  a/b <u x1 + x2 (not wrapping)"""
+    w = a.size()
+    ext = lambda t: z3.ZeroExt(w, t)
+    mine = []
+    for m, x, y in products:
+        if m.size() != w: continue
+        if y.eq(b): mine.append((m, x))
+        elif x.eq(b): mine.append((m, y))
+    hs = []
+    for m, x in mine:
+        nowrap = ext(b) * ext(x) == ext(m)
+        hs.append(z3.Implies(z3.And(nowrap, b != 0, z3.ULE(m, a)), z3.ULE(x, q)))
+        hs.append(z3.Implies(z3.And(nowrap, b != 0, z3.ULT(a, m)), z3.ULT(q, x)))
+    for i in range(len(mine)):
+        for j in range(i + 1, len(mine)):
+            (m1, x1), (m2, x2) = mine[i], mine[j]
+            nowrap = z3.And(ext(b) * ext(x1) == ext(m1), ext(b) * ext(x2) == ext(m2),
+                            z3.ULE(m1, m1 + m2), z3.ULE(x1, x1 + x2))
+            hs.append(z3.Implies(z3.And(nowrap, b != 0, z3.ULT(a, m1 + m2)), z3.ULT(q, x1 + x2)))
+    return hs
+
 def native_hints(assertions):
     """uniqueness and bound hints for the native (bvudiv/bvurem) encoding"""
     hints, seen = [], set()
     shifts = collect_lshr_consts(assertions)
     sums = collect_sums(assertions)
+    products = collect_products(assertions)
     for t in collect_divs(assertions):
         a, b = t.arg(0), t.arg(1)
         key = (a.get_id(), b.get_id())
@@ -886,7 +968,7 @@ def native_hints(assertions):
         seen.add(key)
         h = uniqueness_hint(a, b, z3.UDiv(a, b), z3.URem(a, b), sums)
         if h is not None: hints.append(h)
-        hints += bound_hints(a, b, z3.UDiv(a, b), shifts)
+        hints += bound_hints(a, b, z3.UDiv(a, b), shifts) + monotonic_hints(a, b, z3.UDiv(a, b), products)
     return hints
 
 def to_smt2(assertions, get_values=None):
